@@ -66,6 +66,8 @@ Section Pipeline.
     | OCUnknownOp                   (* execute(): get_operation_with_type raises InvalidOperationError
                                        before on_execution_start -> except ExecutionError -> _abort *)
     | OCVarError => abort           (* coerce_variable_values raises -> except VariablesCoercionError *)
+    | OCDirective => abort          (* executor.collect_fields(root selections) raises CoercionError before
+                                       on_execution_start -> except CoercionError -> _abort *)
     | OCSuccess | OCPartial =>
         hook_start SE ++ fields ++
         hook_end SE ++              (* execute._on_finish *)
